@@ -34,6 +34,19 @@ enum BatchLimit {
 }
 //@end
 
+/// stand-in for `#[derive(Clone)]` on BatchLimit (dropped by derive_only): a structural copy -- Verus gives a derived
+/// non-Copy Clone no meaning, so edits that call `.clone()` would otherwise be unverifiable
+impl Clone for BatchLimit {
+    fn clone(&self) -> (r: Self)
+        ensures r == *self,
+    {
+        match self {
+            BatchLimit::BatchSize(c) => BatchLimit::BatchSize(*c),
+            BatchLimit::TotalItemSize(c, m) => BatchLimit::TotalItemSize(*c, *m),
+        }
+    }
+}
+
 pub open spec fn sizes<T>(s: Seq<T>) -> Seq<usize> { s.map(|k: int, t: T| item_size(t)) }
 pub open spec fn max_of(s: Seq<usize>) -> usize
     decreases s.len()
